@@ -59,6 +59,7 @@ func TestVerifHostileTubeOpens(t *testing.T) {
 	var behs []struct {
 		Seq   []vhOpen `json:"seq"`
 		Phase string   `json:"phase"`
+		Pre   bool     `json:"pre"` // the peer is hostile from its first tube: no user authorization before the sequence
 	}
 	if err := json.Unmarshal(raw, &behs); err != nil {
 		t.Fatal(err)
@@ -110,7 +111,7 @@ func TestVerifHostileTubeOpens(t *testing.T) {
 	var nsess atomic.Uint32
 	var admitMu sync.Mutex // the user database answers only during an admission; admissions are serialised
 	// connect: a real session admitted through its start() loop; byGrant: admitted through authorization grants
-	connect := func(byGrant bool) (*vfSession, bool) {
+	connect := func(byGrant, authorize bool) (*vfSession, bool) {
 		a, b := vfPipe()
 		vs := &vfSession{user: "vh-user"}
 		vs.smux = tubes.Server(b, &tubes.Config{Log: logrus.NewEntry(lg)})
@@ -133,6 +134,9 @@ func TestVerifHostileTubeOpens(t *testing.T) {
 		admitting.Add(1)
 		defer admitting.Add(-1)
 		go vs.sess.start()
+		if !authorize {
+			return vs, true
+		}
 		ua, err := vs.cmux.CreateReliableTube(common.UserAuthTube)
 		if err != nil {
 			return vs, false
@@ -155,10 +159,10 @@ func TestVerifHostileTubeOpens(t *testing.T) {
 		rng.Read(b)
 		return b
 	}
-	runSeq := func(i int, seq []vhOpen, phase string) {
+	runSeq := func(i int, seq []vhOpen, phase string, pre bool) {
 		byGrant := i%2 == 1
-		emit(map[string]any{"ev": "opens", "i": i, "seq": seq, "grant": byGrant})
-		vs, ok := connect(byGrant)
+		emit(map[string]any{"ev": "opens", "i": i, "seq": seq, "grant": byGrant, "pre": pre})
+		vs, ok := connect(byGrant, !pre)
 		if !ok {
 			emit(map[string]any{"ev": "session", "i": i, "admitted": "no", "alive": "yes"})
 			go vs.cmux.Stop()
@@ -215,7 +219,7 @@ func TestVerifHostileTubeOpens(t *testing.T) {
 			}
 		}
 		// the server must still admit a regular connection
-		p, alive := connect(false)
+		p, alive := connect(false, true)
 		go func() { p.cmux.Stop(); p.smux.Stop() }()
 		emit(map[string]any{"ev": "session", "i": i, "admitted": "yes", "fence": fence, "alive": map[bool]string{true: "yes", false: "no"}[alive]})
 		go func() {
@@ -224,15 +228,15 @@ func TestVerifHostileTubeOpens(t *testing.T) {
 		}()
 	}
 	var wg sync.WaitGroup
-	sem := make(chan struct{}, 12)
+	sem := make(chan struct{}, 48)
 	for i, b := range behs {
 		wg.Add(1)
 		sem <- struct{}{}
-		go func(i int, seq []vhOpen, phase string) {
+		go func(i int, seq []vhOpen, phase string, pre bool) {
 			defer wg.Done()
 			defer func() { <-sem }()
-			runSeq(i, seq, phase)
-		}(i, b.Seq, b.Phase)
+			runSeq(i, seq, phase, pre)
+		}(i, b.Seq, b.Phase, b.Pre)
 	}
 	wg.Wait()
 	emit(map[string]any{"ev": "summary", "sequences": len(behs)})
